@@ -440,7 +440,21 @@ func c13Check(c *C13Case) (ds []ev.Discrepancy, nontrivial bool) {
 			_ = h.Open(uri, texts[i])
 			opened[st.Doc] = true
 		} else if st.Reopen {
-			_ = h.Close(uri)
+			// a notification returns whatever the client is doing with a publication it was handed
+			closed := make(chan struct{})
+			go func() { _ = h.Close(uri); close(closed) }()
+			select {
+			case <-closed:
+			case <-time.After(10 * time.Second):
+				nparked := len(h.C.Parked())
+				h.C.SetPark(false)
+				for k := nparked - 1; k >= 0; k-- {
+					h.C.Release(k)
+				}
+				<-closed
+				_ = h.Quiesce()
+				return []ev.Discrepancy{ev.D("c13.notification.blocked", "step %d: didClose of document %d did not return within 10 s while %d publications were still in the client's hands (it returned once they were taken)", i, st.Doc, nparked)}, true
+			}
 			_ = h.Open(uri, texts[i])
 		} else if st.Ranged {
 			// a ranged edit that replaces the whole content
